@@ -61,8 +61,30 @@ func checkC06(c *Ctx) {
 			}
 		}
 	}
-	isI := func(v ssa.Value) bool { // v is the request parameter (by value)
+	var curPath *Path
+	var curAt int
+	isI := func(v ssa.Value) bool { // v is the request parameter (by value), also when seen from inside a helper
 		v = strip(v)
+		if curPath != nil {
+			// seen from inside a helper: the helper's parameter (possibly spilled) stands for the caller's argument
+			for k := 0; k < 4; k++ {
+				w := v
+				if u, ok := w.(*ssa.UnOp); ok && u.Op == token.MUL {
+					if a, ok := u.X.(*ssa.Alloc); ok && a.Parent() != fn {
+						if sst := singleStore(a); sst != nil {
+							w = sst
+						}
+					}
+				}
+				if par, ok := w.(*ssa.Parameter); ok && par.Parent() != fn {
+					w = strip(curPath.Resolve(par, curAt))
+				}
+				if w == v {
+					break
+				}
+				v = w
+			}
+		}
 		if v == ssa.Value(iParam) {
 			return true
 		}
@@ -149,6 +171,7 @@ func checkC06(c *Ctx) {
 		var confCall *ssa.Call
 		var rcodCall *ssa.Call
 		p.ForEach(func(bi int, ins ssa.Instruction) bool {
+			curPath, curAt = p, bi
 			// stores into the request
 			if st, ok := ins.(*ssa.Store); ok && iAlloc != nil {
 				root, _ := accessPath(st.Addr)
@@ -567,66 +590,139 @@ func c06NoDeadline(c *Ctx) {
 // fails to decode leaves its tail unread: the only sound reaction is to stop.
 func c06Request(c *Ctx) {
 	P := c.P
-	fn := P.Func("authgrants", "(*principalInstance).handleIntentRequest")
-	if fn == nil {
-		c.Undecided("C06.R3", "authgrants.(*principalInstance).handleIntentRequest", "function not found")
-		return
-	}
-	name := FuncName(fn)
-	c.Analysed(name)
 	rir := hopID("authgrants", "", "ReadIntentRequest")
 	wden := hopID("authgrants", "", "WriteIntentDenied")
 	wconf := hopID("authgrants", "", "WriteIntentConfirmation")
 	chk := hopID("authgrants", "principalInstance", "doIntentRequestChecks")
-	fs := newFailSet()
+	chkFn := P.Func("authgrants", "(*principalInstance).doIntentRequestChecks")
+	fDel := P.Field("authgrants", "principalInstance", "delegateConn")
+	// the request reader: whichever function of the principal reads requests from the delegate connection
+	var readers []*ssa.Function
+	for _, f := range P.ModuleFuncs("authgrants") {
+		for _, cs := range callSitesIn(f, false, rir) {
+			if a := cs.Common().Args; len(a) == 1 && fDel != nil && endsInField(a[0], fDel, false) {
+				readers = append(readers, f)
+				break
+			}
+		}
+	}
+	if len(readers) == 0 {
+		c.Undecided("C06.R3", "authgrants: reader of intent requests", "no function reads intent requests from principalInstance.delegateConn")
+		return
+	}
 	nRead := 0
-	ok := walkAll(c, "C06.R3", fn, func(p *Path) {
-		if p.Returns() == nil {
-			return
+	for _, fn := range readers {
+		name := FuncName(fn)
+		c.Analysed(name)
+		fs := newFailSet()
+		type ev struct {
+			kind byte // 'R' read, 'C' hand-over, 'A' direct answer
+			call *ssa.Call
+			at   int
 		}
-		last := len(p.Blocks) - 1
-		var readCall *ssa.Call
-		answers, checks := 0, 0
-		var chkCall *ssa.Call
-		for _, pc := range callsOnPath(p) {
-			switch calleeID(pc.call) {
-			case rir:
-				readCall = pc.call
-			case wden, wconf:
-				answers++
-			case chk:
-				checks++
-				chkCall = pc.call
+		ok := walkAllOpts(c, "C06.R3", fn, PathOpts{MaxVisits: 2, EmitTruncated: true, Inline: func(root, g *ssa.Function) bool { return g != chkFn && localHelper(root, g) }}, func(p *Path) {
+			var evs []ev
+			p.ForEach(func(i int, ins ssa.Instruction) bool {
+				call, ok := ins.(*ssa.Call)
+				if !ok {
+					return true
+				}
+				switch calleeID(call) {
+				case rir:
+					evs = append(evs, ev{'R', call, i})
+				case chk:
+					evs = append(evs, ev{'C', call, i})
+				case wden, wconf:
+					evs = append(evs, ev{'A', call, i})
+				}
+				return true
+			})
+			last := len(p.Blocks) - 1
+			for k, e := range evs {
+				if e.kind != 'R' {
+					if k == 0 || (func() bool {
+						for _, q := range evs[:k] {
+							if q.kind == 'R' {
+								return false
+							}
+						}
+						return true
+					})() {
+						fs.add("request-read", "an answer is produced on a path that read no request", e.call, p)
+					}
+					continue
+				}
+				nRead++
+				// this request's events, up to the next read
+				end := len(evs)
+				for q := k + 1; q < len(evs); q++ {
+					if evs[q].kind == 'R' {
+						end = q
+						break
+					}
+				}
+				// decode status as known where the next event happens (facts of this iteration still hold there)
+				at := last
+				if k+1 < len(evs) {
+					at = evs[k+1].at
+				}
+				errV := errResultOf(e.call)
+				if errV == nil {
+					continue
+				}
+				switch p.Nilness(errV, at) {
+				case isNil:
+					checks, answers := 0, 0
+					var chkCall *ssa.Call
+					for _, q := range evs[k+1 : end] {
+						if q.kind == 'C' {
+							checks++
+							chkCall = q.call
+						} else {
+							answers++
+						}
+					}
+					complete := end < len(evs) || (!p.Truncated && p.Returns() != nil)
+					if complete && (checks != 1 || answers != 0) {
+						fs.add("request-read", fmt.Sprintf("a decoded request is handed to doIntentRequestChecks %d times and answered %d times directly (exactly one hand-over required)", checks, answers), p.Exit(), p)
+					} else if chkCall != nil {
+						if end < len(evs) {
+							// the conversation goes on only if handling the request did not fail
+							if p.Nilness(chkCall, evs[end].at) != isNil {
+								fs.add("request-read", "another request is read although doIntentRequestChecks was not found to have returned nil (a failed answer would not end the conversation)", evs[end].call, p)
+							}
+						} else if r := p.Returns(); r != nil && !p.Truncated && len(r.Results) > 0 {
+							if p.Resolve(r.Results[len(r.Results)-1], last) != ssa.Value(chkCall) && p.Nilness(chkCall, last) != isNil {
+								fs.add("request-read", "the result of doIntentRequestChecks is not what "+name+" returns (a failed answer would not end the conversation)", p.Exit(), p)
+							}
+						}
+					}
+				case nonNil:
+					if end > k+1 {
+						fs.add("decode-error-ends", "a request that failed to decode is answered: the stream is not framed, so the unread tail of that request is then parsed as further requests, each producing another answer (or a confirmation for bytes the principal never approved as a request)", evs[k+1].call, p)
+					}
+					if end < len(evs) {
+						fs.add("decode-error-ends", "after a request failed to decode another one is read from the same unframed stream (from the middle of a message)", evs[end].call, p)
+					} else if !p.Truncated {
+						if p.Returns() == nil {
+							continue
+						}
+						if errorResultIndex(fn.Signature) >= 0 && errReturnClass(p) != nonNil {
+							fs.add("decode-error-ends", name+" does not return an error when the request failed to decode: its caller keeps reading the same unframed stream from the middle of a message", p.Exit(), p)
+						}
+					} else {
+						fs.add("decode-error-ends", "after a request failed to decode the reader loops instead of ending the conversation", p.Exit(), p)
+					}
+				}
 			}
+		})
+		if ok {
+			fs.report(c, "C06.R3", name, []string{"request-read", "decode-error-ends"}, P.Pos(fn.Pos()), "decoded requests are handled once; a decode error ends the conversation without an answer")
 		}
-		if readCall == nil {
-			if answers+checks > 0 {
-				fs.add("request-read", "an answer is produced on a path that read no request", p.Exit(), p)
-			}
-			return
-		}
-		nRead++
-		ev := errResultOf(readCall)
-		if ev != nil && p.Nilness(ev, last) == isNil {
-			// request decoded: handled exactly once, and that result is what the loop sees
-			if checks != 1 || answers != 0 {
-				fs.add("request-read", fmt.Sprintf("a decoded request is handed to doIntentRequestChecks %d times and answered %d times directly (exactly one hand-over required)", checks, answers), p.Exit(), p)
-			} else if r := p.Returns(); p.Resolve(r.Results[len(r.Results)-1], last) != ssa.Value(chkCall) {
-				fs.add("request-read", "the result of doIntentRequestChecks is not what handleIntentRequest returns (a failed answer would not end the conversation)", p.Exit(), p)
-			}
-			return
-		}
-		// request not decoded
-		if answers+checks > 0 {
-			fs.add("decode-error-ends", "a request that failed to decode is answered: the stream is not framed, so the unread tail of that request is then parsed as further requests, each producing another answer (or a confirmation for bytes the principal never approved as a request)", p.Exit(), p)
-		}
-		if errReturnClass(p) != nonNil {
-			fs.add("decode-error-ends", "handleIntentRequest does not return an error when the request failed to decode: run() keeps reading the same unframed stream from the middle of a message", p.Exit(), p)
-		}
-	})
-	if ok {
-		fs.report(c, "C06.R3", name, []string{"request-read", "decode-error-ends"}, P.Pos(fn.Pos()), "decoded requests are handled once; a decode error ends the conversation without an answer")
-		c.Floor("C06.R3", "paths of handleIntentRequest that read a request", nRead, 2)
+	}
+	c.Floor("C06.R3", "request reads on enumerated paths of the request reader", nRead, 2)
+	if P.Func("authgrants", "(*principalInstance).handleIntentRequest") == nil {
+		return // the reader is the loop itself: covered above
 	}
 	// run(): leaves its loop when handleIntentRequest fails
 	run := P.Func("authgrants", "(*principalInstance).run")
